@@ -5,7 +5,7 @@ import NGF.Model.Proto
 Driver entry for C10.
   model line :  `first=<natlist> ops=<op,op,…>`   ops: r<N> | h | a | c | d
   output     :  `log=<lists> next=<list> h=<..> handling=<..> phase=<..> overlap=<..> skipped=<n>`
-  judge line :  `first=<natlist> sent=<natlist> batches=<lists> exits=<lists> maxconc=<n> early=<0|1> drained=<0|1>`
+  judge line :  `first=<natlist> sent=<natlist> batches=<lists> exits=<lists> maxconc=<n> early=<0|1> drained=<0|1> [stuck=<0|1>]`
   output     :  `ok` | `fail <clause>`
 Delivery (`NGF.Model.Delivery`):
   dmodel line:  `qs=<q|q|…> first=<natlist> ops=<op,…>`  q = `id:pass:get,…` (get f|n|e); ops: b<i> | d<i>:<ev> | g<i> | c | lh | la | lc | ld
@@ -50,10 +50,13 @@ def modelLine (line : String) : String :=
 `batches` are the slices seen at handler entry, `exits` the same slices re-read at handler exit,
 `maxconc` the maximum number of simultaneously running handlers, `early` whether Start returned
 while a handler was still running, `drained` whether the harness let the loop run to quiescence
-(then every sent event must have been handled). -/
+(then every sent event must have been handled), `stuck` whether an event offered while the handler was idle
+(acknowledged and gone) was not taken by the loop within the bounded wait. The FIRST handler invocation
+must carry exactly the start-up batch, also when that batch is empty. -/
 def judge (first sent : List Nat) (batches exits : List (List Nat)) (maxconc : Nat)
-    (early drained : Bool) : Option String :=
+    (early drained : Bool) (stuck : Bool := false) : Option String :=
   if batches.head? != some first then some "first_batch_first"
+  else if stuck then some "idle_implies_empty_next"
   else if maxconc > 1 then some "at_most_one_in_flight"
   else if batches != exits then some "handler_view_stable"
   else if early then some "cancel_waits"
@@ -68,7 +71,7 @@ def judgeLine (line : String) : String :=
         field fs "batches" >>= parseNatLists, field fs "exits" >>= parseNatLists,
         field fs "maxconc" >>= String.toNat?, field fs "early", field fs "drained" with
   | some first, some sent, some b, some x, some mc, some e, some d =>
-    match judge first sent b x mc (e == "1") (d == "1") with
+    match judge first sent b x mc (e == "1") (d == "1") (field fs "stuck" == some "1") with
     | none => "ok"
     | some c => "fail " ++ c
   | _, _, _, _, _, _, _ => "bad-op"
